@@ -145,16 +145,27 @@ def build_harness(profile="debug"):
                 open(lock_dst, "wb").write(open(lock_src, "rb").read())
                 rc, log = run(cmd, cwd=HARNESS_SRC, timeout=1600)
         if rc != 0:
-            # the tree may have renamed or reshaped the error variants the harness names (feature `names`): classify errors
-            # without naming any.  Cases whose answer is one of C05's named kinds will then differ from the model and be
-            # reported by the checks that have such cases; every other check still runs.
-            rc2, log2 = run(cmd + ["--no-default-features"], cwd=HARNESS_SRC, timeout=1600)
-            if rc2 == 0:
-                note = ("harness built WITHOUT the `names` feature: the pinned names of the error variants do not compile against "
-                        "this tree (%s)" % " ".join(l.strip() for l in log.split("\n") if l.startswith("error"))[:300])
-                if note not in HARNESS_NOTES:
-                    HARNESS_NOTES.append(note)
-            else:
+            # the tree may have renamed or reshaped error variants the harness names (features sec, rdr, lin, bld - one per enum):
+            # drop as few of them as possible.  Errors of an enum whose names are gone are classified without naming a variant;
+            # cases whose answer is one of C05's named kinds of that enum then differ from the model and are reported by the
+            # checks that have such cases, every other check still runs.
+            import itertools
+            feats = ["sec", "rdr", "lin", "bld"]
+            done = False
+            for k in (3, 2, 1, 0):
+                for keep in itertools.combinations(feats, k):
+                    rc2, _log2 = run(cmd + ["--no-default-features", "--features", ",".join(keep)], cwd=HARNESS_SRC, timeout=1600)
+                    if rc2 == 0:
+                        note = ("harness built without the variant names of %s: they do not compile against this tree (%s)" % (
+                            ", ".join(f for f in feats if f not in keep),
+                            " ".join(l.strip() for l in log.split("\n") if l.startswith("error"))[:300]))
+                        if note not in HARNESS_NOTES:
+                            HARNESS_NOTES.append(note)
+                        done = True
+                        break
+                if done:
+                    break
+            if not done:
                 raise BuildError("cargo build (%s) of the harness against /repo" % profile, log)
         return os.path.join(TARGET, profile, "cf-harness")
 
@@ -306,7 +317,11 @@ def source_changes():
     return sorted(k for k in set(cur) | set(ref) if cur.get(k) != ref.get(k))
 
 
-def norm_out(case, out):
+_E_ITEM = re.compile(r"E\([^ ]*\)")
+_ERR_TOK = re.compile(r"\berr:[a-z0-9]+")
+
+
+def norm_out(case, out, pid=None):
     """What is compared between implementation and model.  For a refused build, WHICH of several defects of the file is
     reported is no property's business (C03: 'refused with an error'): it depends on the order in which the builder happens to
     validate (streaming, or all sections first), and a harmless reordering must not break the correspondence.  The kinds the
@@ -314,6 +329,12 @@ def norm_out(case, out):
     'surfaces as an I/O error' by its oracle on the raw output, C12's 'same error kind under every encoding' by its oracle."""
     if out is not None and out.startswith("err ") and case.split(" ", 1)[0] in ("build", "dump", "threads"):
         return "err"
+    # The KIND of a section / line / reader error is C05's subject (and, relationally, C12's and C08's, whose oracles read the raw
+    # output).  Every other property is about something else - how many items, where the cursor stands, what round-trips, whether
+    # anything panics - so its comparison with the model keeps the shape (an error item here, a section there) and drops the kind:
+    # a tree that renames an error variant is then reported by C05, which cannot decide without the name, and by nobody else.
+    if pid != "C05" and out is not None and case.split(" ", 1)[0] in ("sections", "ops", "lines", "raw", "pline"):
+        out = _ERR_TOK.sub("err:*", _E_ITEM.sub("E(*)", out))
     # C15: "a different contig or strand is an error", "constructing a pair from unequal lengths is refused" - which variant
     # carries the refusal is not stated (the harmless refactor C15-t3 introduces its own variants)
     cmd = case.split(" ", 1)[0]
@@ -438,7 +459,10 @@ def c18_static():
               by itself a violation: the check then searches for a concurrent run that differs from the sequential one."""
     direct, premise = [], []
     unsafe_tok = re.compile(r"\bunsafe\b")
-    mut_tok = re.compile(r"\b(UnsafeCell|Cell|RefCell|Mutex|RwLock|Atomic\w*|OnceCell|OnceLock|LazyLock|thread_local|static\s+mut|lazy_static)\b")
+    # set-once cells (OnceLock, LazyLock, OnceCell, lazy_static) are not in the list: get_or_init is linearizable and the cell never
+    # changes afterwards, so a cache built on them answers under every schedule what it answers sequentially (and a wrong cache is
+    # wrong sequentially, where the other checks see it); std::cell::OnceCell is !Sync and would fail the compile-time obligations
+    mut_tok = re.compile(r"\b(UnsafeCell|Cell|RefCell|Mutex|RwLock|Atomic\w*|thread_local|static\s+mut)\b")
     srcdir = os.path.join(REPO, "src")
     for d, _, fs in os.walk(srcdir):
         if os.path.join(srcdir, "bin") in d:
